@@ -294,6 +294,118 @@ if MODEL:
         c.obligations.append(_ob(name, st, time.time() - t0, info or detail, solver_calls=HOW["solver"] - s0))
         return worst is True
 
+    def _poly(t, cache):
+        """z3 real term -> {monomial: Fraction} (monomial = sorted tuple of (atom id, exponent)); None when t is not a
+        polynomial with rational coefficients over its atoms (symbols / applications of uninterpreted functions)"""
+        from fractions import Fraction
+        key = t.get_id()
+        if key in cache:
+            return cache[key]
+        def mul(p, q):
+            out = {}
+            for m1, c1 in p.items():
+                for m2, c2 in q.items():
+                    d = dict(m1)
+                    for a_, e_ in m2:
+                        d[a_] = d.get(a_, 0) + e_
+                    m = tuple(sorted(d.items()))
+                    out[m] = out.get(m, 0) + c1 * c2
+            return {m: c for m, c in out.items() if c != 0}
+        def add(p, q, sign=1):
+            out = dict(p)
+            for m, c in q.items():
+                out[m] = out.get(m, 0) + sign * c
+            return {m: c for m, c in out.items() if c != 0}
+        r = None
+        if z3.is_rational_value(t):
+            v = Fraction(t.numerator_as_long(), t.denominator_as_long())
+            r = {(): v} if v != 0 else {}
+        elif z3.is_algebraic_value(t):
+            r = None
+        elif z3.is_app(t):
+            k = t.decl().kind()
+            ch = t.children()
+            if k == z3.Z3_OP_UNINTERPRETED:
+                r = {((key, 1),): Fraction(1)}
+            elif k == z3.Z3_OP_TO_REAL:
+                r = {((key, 1),): Fraction(1)}
+            elif k in (z3.Z3_OP_ADD, z3.Z3_OP_SUB, z3.Z3_OP_MUL):
+                ps = [_poly(c_, cache) for c_ in ch]
+                if all(p_ is not None for p_ in ps):
+                    r = ps[0]
+                    for p_ in ps[1:]:
+                        r = add(r, p_) if k == z3.Z3_OP_ADD else add(r, p_, -1) if k == z3.Z3_OP_SUB else mul(r, p_)
+            elif k == z3.Z3_OP_UMINUS:
+                p_ = _poly(ch[0], cache)
+                r = None if p_ is None else {m: -c for m, c in p_.items()}
+            elif k == z3.Z3_OP_POWER and z3.is_rational_value(ch[1]) and ch[1].denominator_as_long() == 1 and 0 <= ch[1].numerator_as_long() <= 64:
+                p_ = _poly(ch[0], cache)
+                if p_ is not None:
+                    r = {(): Fraction(1)}
+                    for _ in range(ch[1].numerator_as_long()):
+                        r = mul(r, p_)
+            elif k == z3.Z3_OP_DIV and z3.is_rational_value(ch[1]) and ch[1].numerator_as_long() != 0:
+                p_ = _poly(ch[0], cache)
+                q = Fraction(ch[1].numerator_as_long(), ch[1].denominator_as_long())
+                r = None if p_ is None else {m: c / q for m, c in p_.items()}
+        cache[key] = r
+        return r
+
+    def _monomial_coeffs(d):
+        p = _poly(d, {})
+        return None if p is None else list(p.values())
+
+    def _bernstein_coeffs(poly, sid, d):
+        """coefficients, in the degree-d Bernstein basis in the atom with id `sid`, of every (other-atoms) monomial of poly"""
+        from fractions import Fraction
+        from math import comb
+        groups = {}
+        for m, c in poly.items():
+            j = dict(m).get(sid, 0)
+            rest = tuple(x for x in m if x[0] != sid)
+            groups.setdefault(rest, {})[j] = c
+        out = []
+        for rest, aj in groups.items():
+            if max(aj) > d:
+                return None
+            for i in range(d + 1):
+                out.append(sum((Fraction(comb(i, j), comb(d, j)) * c for j, c in aj.items() if j <= i), Fraction(0)))
+        return out
+
+    def prove_close(name, a, b, tol=1e-9, bernstein=None):
+        """obligation for tables of IRRATIONAL numbers held in doubles (Gauss-Legendre nodes and what is computed from
+        them): a - b, in sum-of-monomials normal form, has every coefficient below `tol` in absolute value.
+        Discharged = identical up to the rounding of the table; a coefficient above tol refutes it (the difference is a
+        non-zero polynomial in independent atoms)."""
+        a, b = ca._coerce(a), ca._coerce(b)
+        c = ctx()
+        t0 = time.time()
+        if a.shape != b.shape:
+            c.obligations.append(_ob(name, "refuted", 0.0, "shape %s vs expected %s" % (a.shape, b.shape)))
+            return False
+        worst, info = True, None
+        for i, (x, y) in enumerate(zip(a.e, b.e)):
+            d = (c.normalize(ca.tz(x)) - c.normalize(ca.tz(y))) if c.subst else (ca.tz(x) - ca.tz(y))
+            if bernstein is None:
+                co = _monomial_coeffs(d)
+            else:
+                # polynomial in the variable bernstein[0]: measure the difference in the (well conditioned) Bernstein
+                # basis of degree bernstein[1] instead of the monomial basis
+                pl = _poly(d, {})
+                co = None if pl is None else _bernstein_coeffs(pl, bernstein[0].get_id(), bernstein[1])
+            if co is None:
+                worst, info = (None if worst is not False else worst), "entry %d: difference is not a polynomial in normal form" % i
+                continue
+            big = max([abs(v) for v in co] or [0])
+            if big > tol:
+                worst, info = False, "entry %d: largest coefficient of the difference %.3g; got %s, expected %s" % (i, float(big), ca._short(x), ca._short(y))
+                break
+        st = {True: "discharged", False: "refuted", None: "unknown"}[worst]
+        ob = _ob(name, st, time.time() - t0, info or "coefficients of the difference all below %g" % tol)
+        ob.backend = "normal-form+tolerance"
+        c.obligations.append(ob)
+        return worst is True
+
 else:
     import numpy as np
 
